@@ -160,16 +160,20 @@ class Plan:
         self.src = src
         self.extjournal = extjournal
 
-    def text(self):
+    def text(self, relative_to=None):
         out = ["log %s" % self.log]
+        pre = (relative_to.rstrip("/") + "/") if relative_to else None
+
+        def rel(p):
+            return p[len(pre):] if pre and p and p.startswith(pre) else p
         for i, d in enumerate(self.devices):
             if isinstance(d, str):
                 d = (d, "")
-            out.append("dev %d %s %s" % (i, d[0], d[1]))
+            out.append("dev %d %s %s" % (i, rel(d[0]), d[1]))
         if self.src:
             out.append("src %s" % self.src)
         if self.extjournal:
-            out.append("extjournal %s" % self.extjournal)
+            out.append("extjournal %s" % rel(self.extjournal))
         out.append("clock %d %d" % (self.clock, self.cost_us))
         out.append("rand %d" % (self.rand_seed & MASK))
         out.append("ncpu %d" % self.ncpu)
@@ -401,11 +405,16 @@ def run_sim(argv, plan, workdir, tag="p", env=None, stdin=None, cpu_s=60, keep_l
     if os.path.exists(plan.log):
         os.unlink(plan.log)
     with open(plan_path, "w") as f:
-        f.write(plan.text())
+        f.write(plan.text(relative_to=workdir))
     e = dict(BASE_ENV)
     if env:
         e.update(env)
     e["SIM_PLAN"] = plan_path
+    # Simulated processes run with cwd = workdir and see every path below it as a relative path, so
+    # that nothing a tool derives from a path (MMP device name, messages, hash of argv) depends on the
+    # name of the scratch directory: a replay in another directory is the same execution.
+    pre = workdir.rstrip("/") + "/"
+    argv = [a[len(pre):] if isinstance(a, str) and a.startswith(pre) and len(a) > len(pre) else a for a in argv]
     r = Result()
     r.argv = argv
     r.timeout = False
